@@ -17,8 +17,10 @@ Level: exploration (model-generated).  TLA+/TLC generate every case and evaluate
 A row that breaks a law is a VIOLATION unless its input has the shape named by an open entry of
 known_findings/C09.json (then KNOWN-FINDING).
 """
-import collections, json, os, random, re, time
+import collections, json, os, random, re, sys, time
 from vlib import core
+
+sys.setrecursionlimit(20000)      # rows may carry deeply nested values (depth-64 chains)
 
 LEVEL = "exploration"
 PROP = "C09"
